@@ -3,7 +3,7 @@ props.py — per-property definitions: the theorems that decide the property (mo
 with `#print axioms`), and the correspondence components (generator, profiles, property-level
 oracle on the implementation's outcome).
 """
-import gen
+import gen, hashlib
 from vlib import parse_case, parse_outcome, ints
 
 COMMON_TRUST = [
@@ -1643,4 +1643,78 @@ PROPS['C20'] = dict(
          '(text in, structure out, on both sides) rather than proved.',
     trusted_base=COMMON_TRUST,
     assumptions=['the stream length is a multiple of 588 (CD-DA mode), as the property states'],
+)
+
+PROPS['C13'] = dict(
+    module='FlacModel.Props.C13',
+    theorems=['Flac.C13.sinkWriteAll_spec', 'Flac.C13.flushBuf_spec', 'Flac.C13.bwWriteAll_spec', 'Flac.C13.chunks_spec', 'Flac.C13.inplace_ok_delivers',
+              'Flac.C13.dropped_writer_loses_data', 'Flac.C13.direct_ok_delivers'],
+    components=[Faults()],
+    rule='exhaustive failure indices: for several update_file scenarios (in-place and rebuilt, with and without padding) the n-th call for every n up to 14 (quick) / 40 (thorough), on the original or on the rebuilt stream, '
+         'counting all calls or only writes / flushes / seeks / reads, failing permanently, once, with Interrupted, or as a 1-byte short write; the same for write_blocks on random block lists (n up to 30/120) and for '
+         'encode+finalize through the byte, sample and channel writers (n up to 25/120, compared with the fault-free file); each run is repeated without the fault to know what a complete result is',
+    claim='inplace_ok_delivers: for EVERY failure schedule of the underlying stream (each call independently failing, interrupted or short), every BufWriter capacity and every split of the serialised blocks into writes, '
+          'if the in-place write as the current source does it (explicit flush whose result is returned - the shape is regenerated from update_file) reports success then the stream holds exactly the old contents followed '
+          'by every byte of the new blocks; dropped_writer_loses_data: the original shape (writer dropped) provably lacks this; direct_ok_delivers: the same for paths that write straight through with `?` (write_blocks, '
+          'frames, header rewrite). Invariant: sink contents ++ buffer = everything accepted so far, preserved by every call outcome.',
+    note='partial: BufWriter and write_all are a hand model of std (modelled, not verified); the harness does not see their internal call pattern, so the correspondence for C13 is the property oracle evaluated on the '
+         'real code at every failure index (success with a tripped fault must equal the fault-free result; no panics; read errors propagate), not a model-vs-implementation diff. Endless Interrupted is a hang in both.',
+    trusted_base=COMMON_TRUST,
+    assumptions=['std::io::BufWriter / Write::write_all semantics as modelled in Model/Io.lean'],
+)
+
+class ParCompare(Component):
+    """C18: the same cases through the binary built with `--features rayon` (inside pools of 1, 2, 3, 4,
+    8 and 16 workers, each several times) and through the serial binary; the finished files must be identical."""
+    name = 'parcmp'
+    ops = ('wr',)
+    profiles = ('release',)
+    model = False
+    features = 'rayon'
+    def cases(self, rng, tier, boost):
+        import vlib
+        base = []
+        for _ in range(self.budget(tier, boost, 40, 600)):
+            ch = rng.choice([1, 2, 2, 2, 3, 6, 8]); bps = rng.choice([8, 16, 16, 24, 32]); n = rng.choice([16, 64, 300, 1200 if tier == 'thorough' else 500])
+            pcm, shape = gen.pcm_multi(rng, n, ch, bps)
+            o = gen.option_fields(rng)
+            base.append(f'wr fe={rng.choice(["byte", "sample", "chan"])} ch={ch} bps={bps} rate={rng.choice([44100, 48000, 96000])} pcm={gen.join(pcm)} chunks=- endian=le ' + gen.fields_str(o))
+        serial, herr = vlib.run_harness('release', base)
+        out = []
+        for c, s_ in zip(base, serial + ['harness-died'] * (len(base) - len(serial))):
+            digest = hashlib.sha1(s_.split(' ncalls=')[0].encode()).hexdigest()[:16]
+            for th in ([1, 2, 4, 16] if tier == 'quick' else [1, 2, 3, 4, 8, 16]):
+                for rep in range(2 if tier == 'quick' else 4):
+                    out.append(c + f' threads={th} rep={rep} serial={digest}')
+        return out
+    def oracle(self, case, impl, profile):
+        op, cf = parse_case(case)
+        h, cls, f = parse_outcome(impl)
+        if h == 'panic':
+            return (f'parcmp:panic:{cls}', 'the parallel build panicked: ' + cls)
+        if 'parallel=1' not in impl:
+            return ('parcmp:not-parallel', 'the harness binary was not built with the rayon feature')
+        digest = hashlib.sha1(impl.split(' ncalls=')[0].encode()).hexdigest()[:16]
+        if digest != cf['serial']:
+            return (f'parcmp:differs', f'with {cf["threads"]} worker threads the finished file differs from the serial build')
+        return None
+    def nontrivial(self, case, impl):
+        return impl.startswith('ok')
+    def classify(self, case, impl):
+        op, cf = parse_case(case)
+        return ['threads=' + cf.get('threads', '?'), 'ch=' + cf.get('ch', '?'), 'outcome=' + impl.split()[0]]
+
+PROPS['C18'] = dict(
+    module='FlacModel.Props.C18',
+    theorems=['Flac.C18.step_final', 'Flac.C18.run_final', 'Flac.C18.schedule_independent', 'Flac.C18.outputs_agree', 'Flac.C18.pick_is_function', 'Flac.C18.no_shared_mutable_state'],
+    components=[ParCompare()],
+    rule='the C01 input/option space (1-8 channels, 8-32 bits, every PCM shape, random encoder options, byte/sample/channel writers) encoded by the binary built with --features rayon inside thread pools of '
+         '1, 2, 3, 4, 8 and 16 workers, each case repeated 2-4 times per pool size, and by the serial binary; the complete finished files are compared byte for byte',
+    claim='schedule_independent: tasks that own disjoint state (each a sequence of atomic steps) end, under EVERY interleaving that runs them to completion and for any number of tasks, in exactly the state serial '
+          'execution gives each of them; outputs_agree: hence anything computed from the results (the candidate chosen by written bits, the bytes written) is the same for any two schedules; pick_is_function: the '
+          'FIXED-vs-LPC choice is a function of the two bit counts only (regenerated kernel). no_shared_mutable_state: the model\'s premise, regenerated from encode.rs (no Mutex/atomic/RefCell/static mut/unsafe).',
+    note='partial: that each closure passed to rayon::join / into_par_iter touches only what it borrows, and that `&mut` borrows are disjoint, is the Rust type system\'s guarantee (trusted), not proved here; the schedules '
+         'rayon actually produces cannot be enumerated, so the runtime side is repeated runs across pool sizes compared with the serial build. Work-stealing, thread start-up and the OS scheduler are outside the model.',
+    trusted_base=COMMON_TRUST + ['rustc borrow checking (disjoint &mut captures, Send/Sync bounds on the closures)', 'rayon 1.11 join / par_iter (results returned in input order)'],
+    assumptions=['the closures are deterministic functions of their captured state'],
 )
